@@ -113,8 +113,9 @@ def addr(rng, n):
 
 def make_frame(rng, info=None, dst_len=None, src_len=None, fmt=0xA, seg=0, ctl=None):
     """a well-formed frame (without flags): format, addresses, control, HCS, info, FCS"""
-    dst = addr(rng, dst_len or rng.choice([1, 1, 2, 4]))
-    src = addr(rng, src_len or rng.choice([1, 1, 2, 4]))
+    # (ISO/IEC 13239 4.7.1: the address field is extended recursively - also beyond four octets)
+    dst = addr(rng, dst_len or rng.choice([1, 1, 2, 4, 1, 2, 5, 7]))
+    src = addr(rng, src_len or rng.choice([1, 1, 2, 4, 1, 4, 6, 5]))
     ctl = rng.randrange(256) if ctl is None else ctl
     if info is None:
         # (total length passes 255 - the second length octet - from 245 on; 2030 is close to the 11-bit maximum)
